@@ -215,6 +215,33 @@ def jump_split_cases(draw, tier):
             'residences': [0, res], 'cap_parts': 3}
 
 
+_E = c03.Enum(1, 2, {'quick': 5, 'thorough': 7})
+
+
+def enum_size(tier):
+    return _E.size(tier)
+
+
+def enum_case(tier, idx):
+    return dict(_E.case_at(tier, idx), all_parts=True, residences=[0, 2])
+
+
+def run_enum(case):
+    """one history, every n_parts from 1 to min(#events, frames-1)"""
+    states = np.array(case['states'])
+    inner = np.array(case['inner'])
+    T = len(states)
+    n_ev = int(np.sum((states[1:] != states[:-1]) | (inner[1:] != inner[:-1])))
+    if n_ev == 0:
+        raise Skip()
+    count, nt = 0, 0
+    for n in range(1, min(n_ev, T - 1) + 1):
+        info = run(dict(case, n_parts=n - 1, prefer_multi=False, touch=(n % 2 == 0)))
+        count += 1
+        nt += bool(info['nontrivial'])
+    return {'nontrivial': nt > 0, 'count': count, 'nontrivial_count': nt, 'labels': []}
+
+
 SUBS = [
     Sub(name='splits', kind='hyp', run=run, strategy=split_cases,
         rule='1-4 atoms x 2-60 (200) frames x <=5 sites; n_parts in [1, min(#events, frames-1)]; Transitions.split, Trajectory.split (equal or not), Jumps.split and rates for minimal residences 0..8',
@@ -222,4 +249,7 @@ SUBS = [
     Sub(name='jump-splits', kind='hyp', run=run, strategy=jump_split_cases,
         rule='1-3 atoms x 30-90 (200) frames, arrivals never inner, visits of length 1, 2, r-1, r, r+1, 3r for minimal residence r in {2,3,5,8}, 1-3 parts: part jumps must be jumps of the whole',
         n={'quick': 100, 'thorough': 2000}, shards={'quick': 6, 'thorough': 16}),
+    Sub(name='enum-all-parts', kind='enum', run=run_enum, size=enum_size, case_at=enum_case, exhaustive=True,
+        rule='complete enumeration: every one-atom (outer, inner) history over 2 sites of length 2..5 (quick) / 2..7 (thorough) x every n_parts from 1 to min(#events, frames-1) (each (history, n_parts) pair is one evaluation)',
+        shards={'quick': 16, 'thorough': 16}),
 ]
